@@ -217,6 +217,39 @@ func ruleAstWrappers(c *Ctx) {
 		}
 		// (e) ToAst wraps *ast.N in this wrapper
 		c.Ob("W5-toast", key, toast, caseWrap["*go/ast."+w.node.Obj().Name()] == w.name, "ToAst maps *ast."+w.node.Obj().Name()+" to "+w.name+" (found "+caseWrap["*go/ast."+w.node.Obj().Name()]+")")
+		// identity: Node() and Interface() hand out the wrapped node itself
+		for _, mn := range []string{"Node", "Interface"} {
+			m := c.P.Func(key + "." + mn)
+			if m == nil {
+				c.Ob("W6-identity", key+"."+mn, nil, false, "wrapper has no "+mn+"() method")
+				continue
+			}
+			good := false
+			var recv types.Object
+			if m.Recv != nil && len(m.Recv.List) == 1 && len(m.Recv.List[0].Names) == 1 {
+				recv = info.Defs[m.Recv.List[0].Names[0]]
+			}
+			isWrapped := func(e ast.Expr) bool {
+				sel, ok := unparen(e).(*ast.SelectorExpr)
+				return ok && sel.Sel.Name == "X" && identOf(sel.X) != nil && recv != nil && info.Uses[identOf(sel.X)] == recv
+			}
+			if m.Body != nil && len(m.Body.List) == 1 {
+				if r, ok := m.Body.List[0].(*ast.ReturnStmt); ok && len(r.Results) == 1 {
+					e := unparen(r.Results[0])
+					if call, ok := e.(*ast.CallExpr); ok && len(call.Args) == 2 {
+						// asNode(x.X, x.X == nil) / asInterface(x.X, x.X == nil): the helper returns its first argument unless the flag is set
+						if fn := calleeOf(info, call); fn != nil && (fn.Name() == "asNode" || fn.Name() == "asInterface") {
+							if b, ok := unparen(call.Args[1]).(*ast.BinaryExpr); ok && b.Op == token.EQL && isWrapped(b.X) && identOf(b.Y) != nil && identOf(b.Y).Name == "nil" {
+								good = isWrapped(call.Args[0])
+							}
+						}
+					} else {
+						good = isWrapped(e)
+					}
+				}
+			}
+			c.Ob("W6-identity", key+"."+mn, m, good, mn+"() returns the wrapped *ast."+w.node.Obj().Name()+" itself (nil when it is nil), not one of its children")
+		}
 		// Size constant
 		k := -1
 		listField := ""
